@@ -21,6 +21,7 @@ try:
     for d in sorted(glob.glob(V+'/seeded/C[0-9][0-9]/[a-z]')):
         pid=d.split('/')[3]; k=d.split('/')[4]
         if only and pid not in only: continue
+        if k not in os.environ.get('SLOTS','abcdefghijklmnopqrstuvwxyz'): continue
         meta=json.load(open(d+'/meta.json'))
         rc,out=sh(f'git -C /repo apply {d}/patch.diff')
         if rc!=0:
